@@ -131,10 +131,6 @@ var CfgC06 = reg(&MachineCfg{
 
 var CfgC12 = reg(&MachineCfg{
 	Prop: "C12",
-	Setup: func(g *G, opt *world.Options) {
-		// every pool identifier is also used as a query argument, existing or not
-		opt.ProbeDenoms = []string{"a", "ab", "abc", "b", "A", "a/", "a b", "a-1", "a\x00b", "\x00", "a/b", "/", "zz"}
-	},
 	Gens: []interface{}{"pnft", 73, "commit", 16, "crash", 2, "export", 3, "bank", 1, "walks", 2, "sim_pnft", 3},
 	Bias: map[string]int{"right-signers": 95, "exec": 2, "adversarial-ids": 1, "by-owner": 90, "former-owner": 5, "pnft-transfer": 5},
 	Rule: "PNFT machine over adversarial identifiers (prefixes of one another, separators, invalid UTF-8, 300-byte ids, NUL while not excluded by an open finding); after every tx the decoded store equals the model, after every commit every single-item view and listing (tokens of denom, by owner, denoms paged, denoms by owner) is compared for all pool arguments; completeness: a fresh pair minted by the denom owner is accepted; non-trivial = >=2 denoms, >=3 tokens minted, a transfer and a burn",
